@@ -80,21 +80,38 @@ def main(inp, outp):
                     it = tsplit(p.date)
                     ev = p.event
                     if ev is None:
-                        it.update(k="S", cls="-", lab="-", z=0)
+                        it.update(k="S", cls="-", lab="-", z=0, info="-")
                     else:
                         cname = type(ev).__name__
                         cls = {"SignalEvent": "signal", "MaxEvent": "max", "MaskEvent": "mask"}.get(cname, "other")
                         lab = str(ev.info).split()[0] if cls != "other" else "other"
                         zval = abs(float(p.phi)) if cls == "signal" else abs(float(p.phi_dot)) if cls == "max" else 0.0
-                        it.update(k="E", cls=cls, lab=lab, z=int(min(round(zval * 1e9), 2000000000)))
+                        it.update(k="E", cls=cls, lab=lab, z=int(min(round(zval * 1e9), 2000000000)), info=str(ev.info))
                     it["up"] = sgn(float(p.phi), 1e-7) if it["k"] == "S" or it["cls"] == "other" else 0
                     stream.append(it)
                     if len(stream) > 20000:
                         raise RuntimeError("more than 20000 items")
             except Exception as e:
                 err = f"{type(e).__name__}: {e}"
+            # selections of the stream by the library's helpers, each on a further identical call (only for the first recorded call)
+            picks, filtered, flt = [], [], []
+            if rep == 0 and err is None:
+                infos = sorted({x["info"] for x in stream if x["k"] == "E"})
+                fresh_kw = lambda: dict(kw, listeners=list(kw["listeners"])) if "listeners" in kw else dict(kw)      # noqa: E731
+                for info in infos[:3] + ["NO SUCH EVENT"]:
+                    nmatch = sum(1 for x in stream if x["k"] == "E" and x["info"] == info)
+                    for off in sorted({0, max(nmatch - 1, 0), nmatch}):
+                        try:
+                            r_ = L.find_event(station.visibility(orb, **fresh_kw()), info, offset=off)
+                            pk = tsplit(r_.date)
+                            pk.update(info=info, offset=off, found=True)
+                        except RuntimeError:
+                            pk = {"s": 0, "us": 0, "info": info, "offset": off, "found": False}
+                        picks.append(pk)
+                flt = infos[:2] if len(infos) >= 2 and sc["step"] % 120 == 0 else []
+                filtered = [tsplit(x.date) for x in L.events_iterator(station.visibility(orb, **fresh_kw()), *flt)]
             traces.append({"scenario": sc["name"], "style": style, "rep": rep, "grid": grid, "stream": stream, "error": err,
-                           "caller_list_len": len(lst)})
+                           "caller_list_len": len(lst), "picks": picks, "filtered": filtered if rep == 0 and err is None else None, "filter": flt})
     with open(outp, "w") as fh:
         json.dump({"traces": traces}, fh)
 
